@@ -46,6 +46,10 @@ var alphaChoices = []uint64{1, 2, 3, 0}
 
 func runC12(c *CaseCtx) *CaseResult {
 	r := rand.New(rand.NewSource(c.CaseSeed() ^ 0xc12))
+	if c.Case%19 == 18 {
+		// "collapse back to a single element" while the tree is tight: removal that makes the tree grow (props_struct.go)
+		return runCollapseCase(c, r)
+	}
 	cc := &ContCase{Kind: "map"}
 	cc.Slab = wideSlab(c.Case, []uint32{256, 1024, 512}[c.Case%3])
 	// all 4^4 alphabet profiles are enumerated over the case list
@@ -1237,7 +1241,8 @@ func init() {
 		Rule: "cases enumerate all 4^4 per-level digest alphabets {1,2,3,large} of an adversarial 4-level digester x collision limits {0,1,2,3,7,255,random} x slab sizes {256,512,1024}; each case is a seeded insert/update/remove/get/has history over 50-600 keys; " +
 			"dictionary semantics and the structural walk (inline groups, external groups, last-level lists, digest filing) are checked after EVERY operation; every insert of a NEW key is predicted by the rule 'refused iff (distinct second-level digests under its first-level digest) - 1 >= limit' " +
 			"and a refusal must be a fatal collision-limit error that allocates/stores/removes nothing and leaves the count unchanged; updates must always be accepted. " +
-			"non-trivial = inline group and (external group or last-level list) seen, >=1 predicted refusal observed, >=1 update of an existing key whose digest budget was exhausted accepted; distinct by hash(config, operation list)",
+			"every 19th case is a COLLAPSE case (paired digests, see C05): two-member external groups dissolve on removal while the root index slab is one child short of full. " +
+			"non-trivial = inline group and (external group or last-level list) seen, >=1 predicted refusal observed, >=1 update of an existing key whose digest budget was exhausted accepted (collapse cases: a removal created a slab); distinct by hash(config, operation list)",
 		Assumptions: []string{"nested maps use the default digester (the library re-creates them that way); only 4-level digesters are generated", "exploration, not proof"},
 		Mandatory:   []string{"collision-limit-refusals", "external_groups_seen", "inline_groups_seen", "max-list-len", "updates-at-exhausted-budget"},
 	})
